@@ -21,3 +21,40 @@ contract(M + "PCSO.add_constraint_eq_zero", props=["C03", "C19"],
                   "implies(sden(H) != 0, %s >= lam)" % _F,
                   "self._ancilla == old(self._ancilla)",
                   "wf(self)", "result is self"])
+
+# ---------------------------------------------------------------------------------- inequalities: same composition
+_N = "(self._ancilla - old(self._ancilla))"
+
+
+def _ineq(name, holds, wit):
+    contract(M + "PCSO." + name, props=["C03", "C19"],
+             instances=[{"self": "model:PCSO", "H": h, "lam": "real", "log_trick": "bool", "bounds": b,
+                         "suppress_warnings": "const:False"}
+                        for h in ("termdict", "model:PUSO", "model:PCSO") for b in ("none", "tuple:real,real", "tuple:none,real")],
+             requires=["wf(self)", "lam > 0", "isint(sden(H))", "encloses(bounds, sden(H))",
+                       "wf(H) if not typeis(H, 'dict') else True", "distinct(self, H)"],
+             returns="param:self", modifies=["self"],
+             ensures=[_F + " >= 0",
+                      "implies(not (%s) and not warned_unsat(), %s >= lam)" % (holds, _F),
+                      "implies((%s) and %s == 0, %s == 0)" % (holds, _N, _F),
+                      "implies((%s) and log_trick and slackval(old(self._ancilla), %s, True) == %s, %s == 0)"
+                      % (holds, _N, wit, _F),
+                      "self._ancilla >= old(self._ancilla)", "wf(self)", "result is self"])
+
+
+_ineq("add_constraint_le_zero", "sden(H) <= 0", "-sden(H)")
+_ineq("add_constraint_lt_zero", "sden(H) < 0", "-sden(H) - 1")
+_ineq("add_constraint_ge_zero", "sden(H) >= 0", "sden(H)")
+_ineq("add_constraint_gt_zero", "sden(H) > 0", "sden(H) - 1")
+
+contract(M + "PCSO.add_constraint_ne_zero", props=["C03", "C19"],
+         instances=[{"self": "model:PCSO", "H": h, "lam": "real", "log_trick": "bool", "bounds": b,
+                     "suppress_warnings": "const:False"}
+                    for h in ("termdict", "model:PUSO", "model:PCSO") for b in ("none", "tuple:real,real", "tuple:none,real")],
+         requires=["wf(self)", "lam > 0", "isint(sden(H))", "encloses(bounds, sden(H))",
+                   "wf(H) if not typeis(H, 'dict') else True", "distinct(self, H)"],
+         returns="param:self", modifies=["self"],
+         ensures=[_F + " >= 0",
+                  "implies(sden(H) == 0 and not warned_unsat(), %s >= lam)" % _F,
+                  "implies(sden(H) != 0 and %s == 0, %s == 0)" % (_N, _F),
+                  "self._ancilla >= old(self._ancilla)", "wf(self)", "result is self"])
